@@ -27,8 +27,34 @@ SIG_PINF = "NUTS.legacy|nonfinite:+inf-selected"
 
 
 # ---------------- targets (python side; exact-friendly arithmetic) ----------------
+def posterior_parts(spec):
+    """the quadratic form of a linear-Gaussian posterior, computed by the harness (never read from the cuqi objects):
+    x ~ N(0, tau2 I), y_l ~ N(A_l x, sig2_l I):  logd = -1/2 x.P x + b.x + c"""
+    d = len(spec["A"][0][0])
+    P = np.eye(d) / spec["tau2"]
+    b = np.zeros(d)
+    c = -0.5 * d * math.log(2 * math.pi * spec["tau2"])
+    for A, y, s2 in zip(spec["A"], spec["y"], spec["sig2"]):
+        A, y = np.array(A, dtype=float), np.array(y, dtype=float)
+        P = P + A.T @ A / s2
+        b = b + A.T @ y / s2
+        c += -0.5 * len(y) * math.log(2 * math.pi * s2) - 0.5 * float(y @ y) / s2
+    return P, b, c
+
+
 def target_funcs(spec):
     kind = spec["kind"]
+    if kind == "shift":
+        f, g = target_funcs(spec["inner"])
+        c = spec["c"]
+        return (lambda x: f(x) + c), g
+    if kind == "lin":
+        f, g = target_funcs(spec["inner"])
+        b = np.array(spec["b"], dtype=float)
+        return (lambda x: f(x) + float(b @ x)), (lambda x: g(x) + b)
+    if kind == "posterior":
+        P, b, c = posterior_parts(spec)
+        return (lambda x: -0.5 * float(x @ (P @ x)) + float(b @ x) + c), (lambda x: -(P @ x) + b)
     if kind == "gauss":
         p = np.array(spec["prec"], dtype=float)
         return (lambda x: -0.5 * np.sum(p * (x * x))), (lambda x: -(p * x))
@@ -51,9 +77,27 @@ def target_funcs(spec):
 def mk_target(cuqi, spec):
     """the target as the user declares it; `style` varies how the callables hand their results over (fresh array, read-only
     array, view into a larger array, 0-d array / numpy scalar for the log-density) without changing any value"""
+    if spec["kind"] == "posterior":
+        # a composite built from cuqi's own objects: Gaussian prior, linear model(s), Gaussian data distribution(s)
+        d = dim_of(spec)
+        x = cuqi.distribution.Gaussian(mean=np.zeros(d), cov=spec["tau2"], name="x")
+        dens, data = [x], {}
+        for l_, (A, y, s2) in enumerate(zip(spec["A"], spec["y"], spec["sig2"])):
+            M = cuqi.model.LinearModel(np.array(A, dtype=float))
+            nm = "y%d" % l_
+            dens.append(cuqi.distribution.Gaussian(mean=M(x), cov=s2, name=nm))
+            data[nm] = np.array(y, dtype=float)
+        return cuqi.distribution.JointDistribution(*dens)(**data)
     f, g = target_funcs(spec)
     style = spec.get("style", "plain")
-    if style == "readonly":
+    if style == "buffer":
+        buf = np.zeros(dim_of(spec))
+
+        def g2(x, g=g, buf=buf):
+            buf[:] = g(x)                     # fills and returns one persistent work array
+            return buf
+        f2 = f
+    elif style == "readonly":
         def g2(x, g=g):
             out = np.array(g(x), dtype=float)
             out.setflags(write=False)
@@ -79,6 +123,13 @@ def cqc(x):
 
 def ctarget(spec):
     k = spec["kind"]
+    if k == "shift":
+        return "(TShift %s %s)" % (cq(spec["c"]), ctarget(spec["inner"]))
+    if k == "lin":
+        return "(TLin %s %s)" % (clist([cqc(v) for v in spec["b"]]), ctarget(spec["inner"]))
+    if k == "posterior":
+        P, b, c = posterior_parts(spec)
+        return "(TShift %s (TLin %s (TQuad %s)))" % (cq(c), clist([cqc(v) for v in b]), clist([clist([cqc(v) for v in row]) for row in P]))
     if k == "gauss":
         return "(TGauss %s)" % clist([cqc(v) for v in spec["prec"]])
     if k == "split":
@@ -92,10 +143,16 @@ def ctarget(spec):
 
 
 def dim_of(spec):
+    if spec["kind"] in ("shift", "lin"):
+        return dim_of(spec["inner"])
+    if spec["kind"] == "posterior":
+        return len(spec["A"][0][0])
     return {"quartic": lambda: spec["dim"], "split": lambda: len(spec["pl"]), "quad": lambda: len(spec["P"])}.get(spec["kind"], lambda: len(spec["prec"]))()
 
 
 def kind_name(spec):
+    if spec["kind"] in ("shift", "lin"):
+        return spec["kind"] + "(" + kind_name(spec["inner"]) + ")"
     return spec["kind"] + (":" + spec["bad"] if spec["kind"] == "box" else "")
 
 
@@ -194,8 +251,14 @@ def run_chain(cuqi, impl, spec, eps, md, x0, scripts, warm=0, warm_seed=1, delta
     opts = opts or {}
     T = mk_target(cuqi, spec)
     x0 = np.array(x0, dtype=float)
-    if x0_dtype == "cuqiarray":
+    if opts.get("x0_none"):
+        x0_in = None                                # the samplers' default initial point (ones)
+    elif x0_dtype == "cuqiarray":
         x0_in = cuqi.array.CUQIarray(np.array(x0, dtype=float))
+    elif x0_dtype == "cuqiarray_subclass":
+        class SubArray(cuqi.array.CUQIarray):       # a subclass instance must be treated like its base class
+            pass
+        x0_in = SubArray(np.array(x0, dtype=float))
     else:
         x0_in = np.array(x0, dtype=x0_dtype)       # what the sampler is given (the values are representable in that dtype)
     kw = {} if delta is None else {"opt_acc_rate": delta}
@@ -203,7 +266,7 @@ def run_chain(cuqi, impl, spec, eps, md, x0, scripts, warm=0, warm_seed=1, delta
     obs = []
     if impl == "exp":
         from cuqi.experimental.mcmc import NUTS
-        s = NUTS(T, initial_point=x0_in, max_depth=(None if opts.get("md_default") else md),
+        s = NUTS(T, initial_point=x0_in, max_depth=(None if opts.get("md_default") else (True if opts.get("md_true") else md)),
                  step_size=(None if opts.get("fge") else eps), **kw)
         rec = Recorder(s)
         in_fge = {"v": False}
@@ -255,9 +318,35 @@ def run_chain(cuqi, impl, spec, eps, md, x0, scripts, warm=0, warm_seed=1, delta
                     s.warmup(warm)
             warm_phase["on"] = False
             sched = {"eps0": float(eps), "events": events, "delta": 0.6 if delta is None else delta}
+        if opts.get("zero_calls"):
+            with ScriptedRandom(seed=warm_seed):
+                s.warmup(0)                            # configured counts of 0: nothing may be drawn, no transition made
+                s.sample(0)
+        refusals_ok, overwrite_ok = True, True
         for j_, (z, e, us) in enumerate(scripts):
             if j_ >= 1 and "md_next" in opts:
                 s.max_depth = opts["md_next"]          # attribute re-assigned on a live sampler
+            if opts.get("refusals"):
+                # invalid settings must be refused in every life-cycle state and leave the sampler as it was
+                before = (s.max_depth, s.step_size, s.opt_acc_rate)
+                for attr, bad in (("max_depth", -1), ("max_depth", 1.5), ("step_size", -0.5), ("step_size", True), ("opt_acc_rate", 1.5), ("opt_acc_rate", 0)):
+                    try:
+                        setattr(s, attr, bad)
+                        refusals_ok = False
+                    except (TypeError, ValueError):
+                        pass
+                if (s.max_depth, s.step_size, s.opt_acc_rate) != before:
+                    refusals_ok = False
+            if opts.get("twin"):
+                # a second sampler on ANOTHER target, alive at the same time and started at the same point
+                T2 = mk_target(cuqi, opts["twin"])
+                s2 = NUTS(T2, initial_point=np.array(s.current_point if s._is_initialized else x0, dtype=float), max_depth=md, step_size=eps)
+                with ScriptedRandom(seed=warm_seed + 7):
+                    s2.sample(2)
+            if j_ >= 1 and opts.get("overwrite_x0") and isinstance(x0_in, np.ndarray):
+                keep = np.array(s.current_point, dtype=float).copy()
+                x0_in[:] = 9.0                          # the caller re-uses the array it once passed as initial point
+                overwrite_ok = overwrite_ok and bool(np.array_equal(np.array(s.current_point, dtype=float), keep))
             sc = Script([(z, e, us)])
             sc.on_start = lambda scripted: rec.start()
 
@@ -276,10 +365,12 @@ def run_chain(cuqi, impl, spec, eps, md, x0, scripts, warm=0, warm_seed=1, delta
                             acc=bool(s._acc[-1]), nrand=sum(1 for o_ in (sc.orders[-1] if sc.orders else []) if o_ == "rand"),
                             nlast=len(tr["leaves"]) - tr["top"][-1] if tr["top"] else 0, alpha=float(s._current_alpha_ratio),
                             order=sc.orders[-1] if sc.orders else [], ntree=int(s.num_tree_node_list[-1]),
-                            md=(opts["md_next"] if (j_ >= 1 and "md_next" in opts) else (15 if opts.get("md_default") else md))))   # what the harness asked for, never read back
+                            start_expected=([float(v) for v in x0] if (j_ == 0 and not warm) else None),
+                            md=(opts["md_next"] if (j_ >= 1 and "md_next" in opts) else (15 if opts.get("md_default") else (1 if opts.get("md_true") else md)))))   # what the harness asked for, never read back
         # keep-alive: the samples handed out earlier still are what they were when the transition ended
         stored = [np.array(v, dtype=float) for v in s._samples[-len(scripts):]]
         obs[0]["samples_stable"] = all(np.array_equal(a_, o_["point"]) for a_, o_ in zip(stored, obs))
+        obs[0]["refusals_ok"], obs[0]["overwrite_ok"] = refusals_ok, overwrite_ok
         if sched is not None:
             sched["events"] = [("prewarm",)] + sched["events"][:]
             # events recorded so far contain the warm-up steps/tunes and the sampling steps
@@ -329,7 +420,8 @@ def run_chain(cuqi, impl, spec, eps, md, x0, scripts, warm=0, warm_seed=1, delta
                             point=np.array(theta[:, k], dtype=float), logd=float(joint[k]), grad=None, acc=None,
                             nrand=sum(1 for o in order if o == "rand"), nlast=len(tr["leaves"]) - tr["top"][-1] if tr["top"] else 0,
                             alpha=None, order=order, ntree=int(s.num_tree_node_list[k - 1]),
-                            first=np.array(theta[:, 0], dtype=float), chain_x0=[float(v) for v in x0], md=md))
+                            first=np.array(theta[:, 0], dtype=float), chain_x0=[float(v) for v in x0], md=md,
+                            start_expected=([float(v) for v in x0] if (j == 0 and not warm) else None)))
         if warm:
             # the statistic of every warm-up iteration from its recorded leaves, for the dual-averaging oracle
             alphas = []
@@ -418,6 +510,9 @@ def transition_oracle(impl, spec, o, z, e):
     x0 = np.array(o["x0"], dtype=float)
     if o["order"][:2] != ["standard_normal", "exponential"] or any(k != "rand" for k in o["order"][2:]):
         return "random numbers are drawn in an unexpected order: %s" % o["order"][:6], "NUTS.rng_order"
+    if o.get("start_expected") is not None and not np.array_equal(x0, np.array(o["start_expected"], dtype=float)):
+        return ("the first transition starts from %s, not from the initial point %s (given, or the default of ones)" % (x0, o["start_expected"]),
+                "NUTS.%s.start_point" % impl)
     L0 = float(f(x0))
     H0 = L0 - 0.5 * float(np.dot(z, z))
     logu = H0 - e
@@ -1019,6 +1114,147 @@ def scale_cases(ctx, rng, cuqi, state, cases):
         made += 1
 
 
+SIG_BUF = {"exp": "NUTS.exp|gradient-callable:reused-work-buffer", "leg": "NUTS.legacy|gradient-callable:reused-work-buffer"}
+SIG_X0 = "NUTS.exp|current_point-aliases-caller-initial_point"
+
+
+def l4_chain(state, cuqi, impl, spec, eps, md, x0, scripts, cases, label, opts=None, x0_dtype="float64", add=True):
+    """one chain of a round-4 lesson family: runs it, appends the per-transition cases (cell .../l4:<label>), returns the observations"""
+    opts = opts or {}
+    chain_meta = {"impl": impl, "target": spec, "eps": eps, "max_depth": md, "x0": x0, "warm": 0, "warm_seed": 11, "delta": None,
+                  "x0_dtype": x0_dtype, "opts": opts, "scripts": [[z, e, us] for (z, e, us) in scripts], "family": label}
+    try:
+        obs = run_chain(cuqi, impl, spec, eps, md, x0, scripts, warm_seed=11, x0_dtype=x0_dtype, opts=opts)
+    except OutOfUniforms:
+        cases.append(crash_case(impl, spec, md, "l4:" + label, chain_meta, "consumed more uniforms than any NUTS transition of this depth can"))
+        return None, chain_meta, []
+    except Exception as ex:
+        cases.append(crash_case(impl, spec, md, "l4:" + label, chain_meta, repr(ex)))
+        return None, chain_meta, []
+    made = []
+    for j, (o, (z, e, us)) in enumerate(zip(obs, scripts)):
+        c, _ = mk_case(state, impl, spec, md, "l4:%s/%d" % (label, j), o, z, e, us, chain_meta, j)
+        made.append(c)
+        if add:
+            cases.append(c)
+    return obs, chain_meta, made
+
+
+def same_run(oa, ob, dlogd=0.0):
+    """two runs made the same decisions and visited the same phase-space points (bit for bit); log-densities differ by dlogd"""
+    return (len(oa) == len(ob) and all(
+        len(a["leaves"]) == len(b["leaves"]) and a["nrand"] == b["nrand"] and np.array_equal(a["point"], b["point"])
+        and all(np.array_equal(la[0], lb[0]) and np.array_equal(la[1], lb[1]) and
+                (la[2] == lb[2] + dlogd or relclose(la[2], lb[2] + dlogd, 1e-12) or (np.isnan(la[2]) and np.isnan(lb[2])))
+                for la, lb in zip(a["leaves"], b["leaves"])) for a, b in zip(oa, ob)))
+
+
+def lesson4_cases(ctx, rng, cuqi, state, cases):
+    """cell families for the lessons of the fourth seeded round (L14-L26); see the registry note for the table"""
+    n = ctx.n(1, 4)
+
+    def scr(md, d, zeros=False):
+        e, us = gen_script(rng, md)
+        z = gen_z(rng, d)
+        if zeros:
+            z = [0.0 if (i_ % 2 == 0 or rng.random() < 0.4) else v for i_, v in enumerate(z)]
+            if all(v == 0 for v in z):
+                z[-1] = 0.5
+        return (z, e, us)
+
+    for rep in range(n):
+        for impl in ("exp", "leg"):
+            # ---- L26 additive constant / large offsets of the log-density -----------------------------------------
+            for c in (float(2 ** 20), -float(2 ** 30), 123456.789, -0.375):
+                inner = gen_spec(rng, rng.choice(["gauss", "quad", "split"]), d=rng.randint(1, 3))
+                d = dim_of(inner)
+                md, eps, x0 = rng.choice([1, 2, 3]), rng.choice([0.25, 0.5, 1.0 / 8]), gen_start(rng, inner)
+                scripts = [scr(md, d), scr(md, d)]
+                spec = {"kind": "shift", "c": c, "inner": inner}
+                obs, meta, made = l4_chain(state, cuqi, impl, spec, eps, md, x0, scripts, cases, "offset")
+                if obs is not None:
+                    ref, _, _ = l4_chain(state, cuqi, impl, inner, eps, md, x0, scripts, [], "offset-ref", add=False)
+                    if ref is not None and not same_run(obs, ref, c) and not any(m_.impl_fail for m_ in made):
+                        made[0].impl_fail = "adding the constant %r to the log-density changes the transition (it must only shift the log-densities)" % c
+                        made[0].signature = "NUTS.%s.offset" % impl
+            # ---- L16 composite targets: cuqi Posterior / MultipleLikelihoodPosterior of a linear-Gaussian model --------
+            for nl in (1, 2):
+                d = rng.choice([2, 3])
+                A, y, s2 = [], [], []
+                for _l in range(nl):
+                    m_ = rng.randint(1, 3)
+                    A.append([[rng.choice([-1.0, -0.5, 0.0, 0.5, 1.0, 2.0]) for _ in range(d)] for _ in range(m_)])
+                    y.append([dy(rng, -2, 2, 4) for _ in range(m_)])
+                    s2.append(rng.choice([0.25, 1.0, 4.0]))
+                spec = {"kind": "posterior", "tau2": rng.choice([0.25, 1.0, 4.0]), "A": A, "y": y, "sig2": s2}
+                md, eps = rng.choice([1, 2]), rng.choice([0.125, 0.25, 0.5])
+                x0 = [dy(rng, -1, 1, 8) for _ in range(d)]
+                l4_chain(state, cuqi, impl, spec, eps, md, x0, [scr(md, d), scr(md, d)], cases, "posterior%d" % nl)
+            # ---- L18 exact zeros inside generic data: momentum / start components that are exactly zero ---------------
+            for tk in ("gauss", "quad"):
+                spec = gen_spec(rng, tk, d=rng.choice([2, 3]))
+                d = dim_of(spec)
+                md, eps = rng.choice([1, 2, 3]), rng.choice([0.25, 0.5, 1.0])
+                x0 = [0.0 if rng.random() < 0.5 else v for v in gen_start(rng, spec)]
+                l4_chain(state, cuqi, impl, spec, eps, md, x0, [scr(md, d, zeros=True), scr(md, d, zeros=True)], cases, "zeros")
+            # ---- L19 a gradient callable that fills and returns one persistent work array ------------------------
+            for tk in ("gauss", "quad"):
+                inner = gen_spec(rng, tk, d=rng.choice([2, 3]))
+                d = dim_of(inner)
+                md, eps, x0 = rng.choice([2, 3]), rng.choice([0.25, 0.5]), gen_start(rng, inner)
+                scripts = [scr(md, d), scr(md, d)]
+                spec = dict(inner)
+                spec["style"] = "buffer"
+                obs, meta, made = l4_chain(state, cuqi, impl, spec, eps, md, x0, scripts, cases, "buffer")
+                if obs is not None:
+                    ref, _, _ = l4_chain(state, cuqi, impl, inner, eps, md, x0, scripts, [], "buffer-ref", add=False)
+                    if ref is not None and not same_run(obs, ref):
+                        for m_ in made:
+                            m_.impl_fail = ("with a gradient callable that fills and returns one persistent work array the transition differs from the one with "
+                                            "fresh gradient arrays: the sampler keeps references to gradients it got earlier (both ends of the trajectory, the candidate)")
+                            m_.signature = SIG_BUF[impl]
+            # ---- L22 shipped defaults: no initial point given (ones) --------------------------------------------------
+            spec = gen_spec(rng, rng.choice(["gauss", "split"]), d=rng.randint(1, 3))
+            d = dim_of(spec)
+            md, eps = rng.choice([0, 1, 2]), rng.choice([0.25, 0.5])
+            l4_chain(state, cuqi, impl, spec, eps, md, [1.0] * d, [scr(md, d), scr(md, d)], cases, "default-x0", opts={"x0_none": True})
+        # ---- experimental sampler only ------------------------------------------------------------------------
+        impl = "exp"
+        mk = lambda: gen_spec(rng, rng.choice(["gauss", "quad", "split"]), d=rng.randint(1, 3))
+        # L23 exact type vs subclass: max_depth=True (a bool is an int), a CUQIarray subclass as initial point
+        spec = mk(); d = dim_of(spec); eps = rng.choice([0.25, 0.5])
+        l4_chain(state, cuqi, impl, spec, eps, 1, gen_start(rng, spec), [scr(1, d), scr(1, d)], cases, "md-true", opts={"md_true": True})
+        spec = mk(); d = dim_of(spec); md = rng.choice([1, 2])
+        l4_chain(state, cuqi, impl, spec, eps, md, gen_start(rng, spec), [scr(md, d), scr(md, d)], cases, "subclass-x0", x0_dtype="cuqiarray_subclass")
+        # L14 refusals in every life-cycle state (fresh, after a transition, after two)
+        spec = mk(); d = dim_of(spec); md = rng.choice([1, 2])
+        obs, meta, made = l4_chain(state, cuqi, impl, spec, eps, md, gen_start(rng, spec), [scr(md, d), scr(md, d), scr(md, d)], cases, "refusals", opts={"refusals": True})
+        if obs is not None and not obs[0].get("refusals_ok", True) and not made[0].impl_fail:
+            made[0].impl_fail = "an invalid max_depth / step_size / opt_acc_rate was accepted (or altered the sampler) in some life-cycle state"
+            made[0].signature = "NUTS.exp.refusal"
+        # L25 two samplers alive at once, on different targets, started at the same point
+        spec = mk(); d = dim_of(spec); md = rng.choice([1, 2])
+        other = gen_spec(rng, "gauss", d=d)
+        l4_chain(state, cuqi, impl, spec, eps, md, gen_start(rng, spec), [scr(md, d), scr(md, d)], cases, "twin", opts={"twin": other})
+        # L21 configured counts of zero: warmup(0) and sample(0) before sampling
+        spec = mk(); d = dim_of(spec); md = rng.choice([1, 2])
+        obs, meta, made = l4_chain(state, cuqi, impl, spec, eps, md, gen_start(rng, spec), [scr(md, d), scr(md, d), scr(md, d)], cases, "zero-counts", opts={"zero_calls": True})
+        if obs is not None:
+            used = [o["eps"] for o in obs]
+            evs = ["(EvPreWarmup (1 # 1)%Q)", "EvPreSample"] + ["EvStep"] * len(used)
+            cases.append(Case(expr="check_schedule %s %s %s %s %s" % (cq(eps), clist(evs), cqvec(used), cq(1.0), cq(1.0)), meta=dict(meta),
+                              cell="exp/l4:zero-counts/schedule", kind="DECISION"))
+        # L15 the caller overwrites, in place, the array it once passed as initial point (first transition made rejecting: huge step)
+        spec = {"kind": "gauss", "prec": [rng.choice([1, 4]) for _ in range(2)]}
+        x0 = [0.5, -0.25]
+        obs, meta, made = l4_chain(state, cuqi, impl, spec, 8.0, 0, x0, [scr(0, 2), scr(0, 2)], cases, "overwrite-x0", opts={"overwrite_x0": True})
+        if obs is not None and not obs[0].get("overwrite_ok", True):
+            for m_ in made[1:]:
+                m_.impl_fail = ("after a rejected first transition the chain state IS the caller's initial-point array: overwriting that array in place moved the chain to %s "
+                                "while the cached log-density / gradient still belong to %s" % (obs[1]["x0"], x0))
+                m_.signature = SIG_X0
+
+
 def run(ctx):
     import cuqi
     import common
@@ -1042,9 +1278,10 @@ def run(ctx):
         for tk in ("gauss", "split", "box:ninf"):       # box: leaves with -inf log-density enter the statistic that drives the adaptation
             for md in ((0, 1, 2) if ctx.thorough else (0, 1)):
                 for _ in range(ctx.n(3, 10) if md < 2 else 2):
-                    gen_chain(ctx, rng, cuqi, state, impl, tk, md, "mid", rng.choice([3, 5, 10, 12, 19, 20, 25]), cases, inners)
+                    gen_chain(ctx, rng, cuqi, state, impl, tk, md, "mid", rng.choice([1, 2, 3, 5, 10, 12, 19, 20, 25]), cases, inners)
     tie_cases(ctx, rng, cuqi, state, cases)
     scale_cases(ctx, rng, cuqi, state, cases)
+    lesson4_cases(ctx, rng, cuqi, state, cases)
     # how many of the scripted transitions were decided with all margins (sample)
     small = [t for t in inners if len(t) < 2500]
     sample = rng.sample(small, min(len(small), 40))
@@ -1211,10 +1448,39 @@ def search(ctx):
     return out
 
 
+def buffer_witness(cuqi, impl):
+    inner = {"kind": "gauss", "prec": [1, 4]}
+    spec = dict(inner)
+    spec["style"] = "buffer"
+    us = [(2 * k_ + 1) / 256 for k_ in (100, 30, 70, 20, 90, 10, 60, 50, 40, 80, 5, 110, 120, 15, 25, 35, 45, 55, 65, 75)] * 8
+    fails = False
+    for k_ in range(8):             # a fixed list of scripts; the first on which the two runs differ is the witness
+        scripts = [([0.5 + 0.25 * k_, 1.0 - 0.125 * k_], 0.5078125, us[k_:]), ([-0.75, 0.5 + 0.25 * k_], 0.2578125, us[2 * k_:])]
+        a = run_chain(cuqi, impl, spec, 0.25, 3, [0.5, -0.25], scripts)
+        b = run_chain(cuqi, impl, inner, 0.25, 3, [0.5, -0.25], scripts)
+        fails = not same_run(a, b)
+        if fails:
+            break
+    return fails, ("gradient callable returning one persistent work array, N(0, diag(1,4)^-1), x0 (0.5,-0.25), step 0.25, max_depth 3: new states %s / %s, with fresh arrays %s / %s"
+                   % (a[0]["point"], a[1]["point"], b[0]["point"], b[1]["point"]))
+
+
+def x0_alias_witness(cuqi):
+    spec = {"kind": "gauss", "prec": [1, 4]}
+    us = [0.51, 0.9] + [0.5] * 160
+    obs = run_chain(cuqi, "exp", spec, 8.0, 0, [0.5, -0.25], [([1.0, 1.0], 0.5078125, us), ([1.0, 1.0], 0.5078125, us)], opts={"overwrite_x0": True})
+    fails = not obs[0].get("overwrite_ok", True)
+    return fails, "initial point array overwritten in place by the caller after a rejected first transition: the second transition starts at %s" % obs[1]["x0"]
+
+
 def known_witnesses(ctx):
     import cuqi
     fails, detail = pinf_witness(cuqi)
-    return {SIG_PINF: (fails, detail)}
+    out = {SIG_PINF: (fails, detail)}
+    for impl in ("exp", "leg"):
+        out[SIG_BUF[impl]] = buffer_witness(cuqi, impl)
+    out[SIG_X0] = x0_alias_witness(cuqi)
+    return out
 
 
 def classify(meta, detail):
